@@ -48,7 +48,7 @@ def r1_boundaries(ctx):
     for bb, t in boundary:
         loops = ms.loops_containing(bb)
         inner = [h for h, bs in loops if bs != chunk_loop]
-        ctx.check(not inner, "send/boundary-between-chunks@%s" % ms.blocks[bb].term["span"].rsplit(":", 1)[-1], site_of(ms, bb),
+        ctx.check(not inner, ctx.nth("send/boundary-between-chunks"), site_of(ms, bb),
                   "a message is closed or opened inside a loop nested in the chunk loop: the entities of one chunk (one entity / one related group) can end up in different messages")
     # ack list: extended with the current chunk's entities, unconditionally within the chunk iteration
     exts = [(bb, t) for bb, t in ms.calls() if callee_decl(t).endswith("Extend::extend") and any("Entity" in a for a in t["callee"]["args"]) and bb in (chunk_loop or ())]
